@@ -35,11 +35,12 @@ import (
 //        | (n5 n<s>)   (ValidReplayer with automatic IDs only) once caught up, advance the replayer's clock by s seconds (TTL 1000 s)
 //        | (n6)        cut the connection silently (client: timeout; server: nothing, writes swallowed) and wait for the resubscription
 //        | (n7)        writes on silently cut connections start to fail
+//        | (n9 n<ms>)  the peer stops reading (the server's next write waits), the handler is told to end, the peer reads again after ms milliseconds
 //        | (n8 n<c>)   the peer's FIN: after c more raw bytes the response ends cleanly right after the next line feed
 // line written: input = (scenario (published ...) (attempt ...) flags), observed = n1
 //   published = (x<id> x<type> (x<data string> ...))            in publish order
 //   attempt   = (hdropt n<outcome: 0 body read, 1 no response> x<body bytes read> n<ending: 0 EOF, 1 error> ((x<id> x<type> x<data>) ...))
-//   flags     = (n<client caught up in time> n<server shut down cleanly>)
+//   flags     = (n<client caught up in time> n<server shut down cleanly and never used a ResponseWriter after its handler returned>)
 
 func init() {
 	families["e2e"] = family{gen: genE2E, exec: execE2E, post: func(in, obs val.V) (val.V, val.V) {
@@ -124,9 +125,13 @@ func (c *cutConn) Read(p []byte) (int, error) {
 // the kernel gives up retransmitting.
 type srvConn struct {
 	net.Conn
-	mode   atomic.Int32
-	gone   chan struct{}
-	goneMu sync.Once
+	mode    atomic.Int32
+	gone    chan struct{}
+	goneMu  sync.Once
+	stall      atomic.Pointer[chan struct{}] // non-nil: writes wait until the channel is closed (a peer that stopped reading)
+	stallAfter int64                         // ... once that many bytes have been written (the response head goes through)
+	written    atomic.Int64
+	stalled    atomic.Bool // a write is waiting
 }
 
 func (c *srvConn) Read(p []byte) (int, error) {
@@ -138,6 +143,13 @@ func (c *srvConn) Read(p []byte) (int, error) {
 	return n, err
 }
 func (c *srvConn) Write(p []byte) (int, error) {
+	if ch := c.stall.Load(); ch != nil && c.written.Add(int64(len(p))) > c.stallAfter {
+		c.stalled.Store(true)
+		select {
+		case <-*ch:
+		case <-c.gone:
+		}
+	}
 	switch c.mode.Load() {
 	case 1:
 		return len(p), nil
@@ -147,6 +159,45 @@ func (c *srvConn) Write(p []byte) (int, error) {
 	return c.Conn.Write(p)
 }
 func (c *srvConn) Close() error { c.goneMu.Do(func() { close(c.gone) }); return c.Conn.Close() }
+
+// guardWriter stands between the library and net/http's ResponseWriter: once the handler has returned, the
+// ResponseWriter must not be touched any more (net/http recycles its buffers; a use then crashes the process or
+// lands in another response).  Such uses are recorded and swallowed instead of being let through.
+type guardWriter struct {
+	w         http.ResponseWriter
+	returned  atomic.Bool
+	usedAfter *atomic.Bool
+}
+
+func (g *guardWriter) late() bool {
+	if g.returned.Load() {
+		g.usedAfter.Store(true)
+		return true
+	}
+	return false
+}
+func (g *guardWriter) Header() http.Header {
+	if g.late() {
+		return http.Header{}
+	}
+	return g.w.Header()
+}
+func (g *guardWriter) Write(p []byte) (int, error) {
+	if g.late() {
+		return 0, errors.New("write after the handler returned")
+	}
+	return g.w.Write(p)
+}
+func (g *guardWriter) WriteHeader(code int) {
+	if !g.late() {
+		g.w.WriteHeader(code)
+	}
+}
+func (g *guardWriter) Flush() {
+	if !g.late() {
+		g.w.(http.Flusher).Flush()
+	}
+}
 
 type e2eAttempt struct {
 	hdr     string
@@ -171,6 +222,7 @@ type e2eRun struct {
 	srvConns  []*srvConn
 	clock     atomic.Int64 // seconds added to the replayer's clock
 	curEvents atomic.Int64 // events received on the current attempt
+	stallArm  atomic.Pointer[chan struct{}] // the next connection's peer stops reading after the response head
 	lis       *pipeListener
 	inner     http.RoundTripper
 }
@@ -332,11 +384,14 @@ func execE2E(in val.V) val.V {
 		// the application chooses the topics itself (here: the default topic, spelled out)
 		srv.OnSession = func(http.ResponseWriter, *http.Request) ([]string, bool) { return []string{sse.DefaultTopic}, true }
 	}
+	var usedAfterReturn atomic.Bool
 	handler := http.HandlerFunc(func(w http.ResponseWriter, r *http.Request) {
 		ctx, cancel := context.WithCancel(r.Context())
 		defer cancel()
 		run.cancelCur.Store(&cancel)
-		srv.ServeHTTP(w, r.WithContext(ctx))
+		g := &guardWriter{w: w, usedAfter: &usedAfterReturn}
+		srv.ServeHTTP(g, r.WithContext(ctx))
+		g.returned.Store(true)
 	})
 	hs := &http.Server{Handler: handler, ErrorLog: log.New(io.Discard, "", 0)}
 	go hs.Serve(run.lis)
@@ -345,6 +400,10 @@ func execE2E(in val.V) val.V {
 		DialContext: func(ctx context.Context, _, _ string) (net.Conn, error) {
 			c1, c2 := net.Pipe()
 			sc := &srvConn{Conn: c2, gone: make(chan struct{})}
+			if ch := run.stallArm.Swap(nil); ch != nil {
+				sc.stallAfter = 400
+				sc.stall.Store(ch)
+			}
 			select {
 			case run.lis.ch <- sc:
 			case <-run.lis.closed:
@@ -532,6 +591,38 @@ func execE2E(in val.V) val.V {
 					time.Sleep(100 * time.Microsecond)
 				}
 			}
+		case 9:
+			// the client is cut and comes back while three long events are owed to it; the peer of the NEW connection stops
+			// reading after the response head, so the provider's replay waits in a write; meanwhile that handler is told to
+			// end (its context is cancelled); after <ms> milliseconds the peer reads again.  The handler may return only when
+			// the provider has let go of the session.
+			if caughtUp = waitRecv(owed(), 5*time.Second); !caughtUp {
+				break
+			}
+			ch := make(chan struct{})
+			run.stallArm.Store(&ch)
+			run.bodyCut.Store(0)
+			for i := 0; i < 3; i++ {
+				publish(100 + i)
+			}
+			var sc *srvConn
+			for d := time.Now().Add(2 * time.Second); time.Now().Before(d); time.Sleep(100 * time.Microsecond) {
+				if c := run.curSrv.Load(); c != nil && c.stall.Load() == &ch && c.stalled.Load() {
+					sc = c
+					break
+				}
+			}
+			if sc != nil {
+				if c := run.cancelCur.Load(); c != nil {
+					(*c)()
+				}
+				time.Sleep(time.Duration(st.At(1).Int()) * time.Millisecond)
+			}
+			run.stallArm.Store(nil)
+			if sc != nil {
+				sc.stall.Store(nil)
+			}
+			close(ch)
 		case 7:
 			// the server's writes on silently cut connections start to fail
 			run.mu.Lock()
@@ -585,7 +676,8 @@ func execE2E(in val.V) val.V {
 	for i, a := range run.attempts {
 		atts[i] = val.L(val.Opt(val.S(a.hdr), a.hasHdr), val.Bool(a.noResp), val.B(a.body), val.Bool(a.endErr), val.List(a.events))
 	}
-	return val.L(val.List(pubs), val.List(atts), val.L(val.Bool(caughtUp), val.Bool(shutErr == nil)))
+	// the server survived: it shuts down cleanly, and no ResponseWriter was used after its handler had returned
+	return val.L(val.List(pubs), val.List(atts), val.L(val.Bool(caughtUp), val.Bool(shutErr == nil && !usedAfterReturn.Load())))
 }
 
 func genE2EScenario(r *rng.R, thorough bool) val.V {
@@ -680,6 +772,16 @@ func genE2E(c *Ctx) {
 				val.L(val.N(1), val.N(30000)), val.L(val.N(0), val.N(2), val.N(1002)), val.L(val.N(4)),
 				val.L(val.N(3), val.N(1)), val.L(val.N(0), val.N(1), val.N(1003)), val.L(val.N(4)),
 				val.L(val.N(2), val.N(500)), val.L(val.N(0), val.N(1), val.N(1004)))))
+		}
+	}
+	// directed: a peer that stops reading while the handler is being ended (short and long stalls)
+	for i, ms := range []int{20, 1300} {
+		for _, kind := range []int{0, 3} {
+			if !c.Thorough && kind != []int{0, 3}[i] {
+				continue
+			}
+			scen = append(scen, val.L(val.Int(kind), val.L(val.L(val.N(0), val.N(2), val.N(1)), val.L(val.N(9), val.Int(ms)), val.L(val.N(4)),
+				val.L(val.N(0), val.N(2), val.N(3)), val.L(val.N(4)))))
 		}
 	}
 	// directed: a caught-up client reconnects (handler end) at every position of a small ring, incl. the wrap
